@@ -10,7 +10,7 @@ from .. import gens
 from ..trace import Trace
 
 RULE = ("Cases: nensembles 1..8 x nprocesses 1..8 x noise_mode {single, flip} x ensemble_noise {0, 0.05, 0.2, 1} x signals of "
-        "256..512 samples (stored as float64 / float32 / int64 / int16) x IMF / envelope / extrema option sets {default, 4 custom} x caps {1,2,3} and caps above what the members yield {9,14}, the global numpy RNG seeded with a drawn value before every call; the same grid for "
+        "256..512 samples (stored as float64 / float32 / int64 / int16) x IMF / envelope / extrema option sets {default, 4 custom, 2 with iteration limits some members cannot meet} x caps {1,2,3} and caps above what the members yield {9,14}, the global numpy RNG seeded with a drawn value before every call; the same grid for "
         "complete_ensemble_sift. Oracle, from the guarded in-tree trace of the per-member worker (member index, pid, the "
         "noise array actually added): (a) one record per member and stage, the members' noise arrays pairwise different "
         "(digest) and pairwise |corr| < 0.5; (b) the output equals the per-IMF mean over members of sift(x +- noise_i, cap) "
@@ -33,7 +33,7 @@ def ens_case(draw):
     return {'sig': sig, 'nens': draw(st.integers(1, 8)), 'nproc': draw(st.integers(1, 8)),
             'mode': draw(st.sampled_from(['single', 'flip'])), 'noise': draw(st.sampled_from([0.0, 0.05, 0.2, 1.0])),
             'cap': draw(st.sampled_from([1, 2, 3, 3, 9, 14])), 'seed': draw(st.integers(0, 2**31 - 1)),
-            'stage': draw(st.sampled_from([0, 0, 1, 2, 3, 4]))}
+            'stage': draw(st.sampled_from([0, 0, 1, 2, 3, 4, 5, 6]))}
 
 
 # option sets handed to the ensemble routine; a member is the decomposition of x +- noise *with the requested options*
@@ -44,6 +44,10 @@ STAGE_OPTS = [
     {'extrema_opts': {'pad_width': 1}},
     {'imf_opts': {'stop_method': 'fixed', 'max_iters': 3}},
     {'envelope_opts': {'interp_method': 'mono_pchip'}, 'extrema_opts': {'mag_pad_opts': {'mode': 'mean', 'stat_length': 2}}},
+    # a limit some members cannot meet with their noise: the call must then fail as a whole (the documented convergence
+    # error) - a result may only come back when every member converged with the noise it was given
+    {'imf_opts': {'max_iters': 6, 'sd_thresh': 0.02}},
+    {'imf_opts': {'max_iters': 4, 'sd_thresh': 0.05}},
 ]
 
 
@@ -114,7 +118,8 @@ def oracle_ensemble(case, rec):
     try:
         members = [member_decomposition(emd, x[:, None], nz, case['mode'], case['cap'], stage_opts(case)) for nz in noises]
     except emd.support.EMDSiftCovergeError:
-        raise Discard('convergence error in the recomputation')
+        raise Violation('C08/ensemble_sift/result-returned-although-a-member-does-not-converge-with-its-own-noise',
+                        'the decomposition of x + the noise recorded for a member raises the convergence error')
     c = min(m.shape[1] for m in members)
     exp = np.mean([m[:, :c] for m in members], axis=0)
     if out.shape != exp.shape:
@@ -192,7 +197,8 @@ def oracle_complete(case, rec):
         try:
             members = [member_decomposition(emd, resid[:, None], nz, case['mode'], 1, stage_opts(case))[:, 0] for nz in noises]
         except emd.support.EMDSiftCovergeError:
-            raise Discard('convergence error in the recomputation')
+            raise Violation('C08/complete_ensemble_sift/result-returned-although-a-member-does-not-converge-with-its-own-noise',
+                            'stage %d: the decomposition of the residual + the noise recorded for a member raises the convergence error' % s)
         exp = np.mean(members, axis=0)
         dev = np.abs(imf[:, s] - exp).max() / scale
         if dev > 1e-12:
